@@ -78,21 +78,18 @@ macro_rules! mt_case { ($name:ident, $k:literal, $a:literal, $b:literal, $c:lite
 include!("gen/h_time_cases.rs");
 
 /// The whole go command: the limit handed to the search (observed at SearchTimer::start) obeys
-/// the same bounds, whatever the token order, with an optional leading `depth n`.
-#[cfg_attr(kani, kani::proof)]
-#[cfg_attr(kani, kani::unwind(10))]
-#[cfg_attr(kani, kani::stub(core::time::Duration::from_millis, crate::hcommon::stub_from_millis))]
-pub fn c12_go_limit() {
+/// the same bounds, with an optional leading `depth n`.  Token order concrete per harness (order
+/// independence itself is what the 128 calculate_move_time cases decide).
+fn go_limit_case(p: [usize; 4]) {
     setup_game(1, 0);
     let white = g().white_root;
     let mut f = Flounder::new();
     let n = [any_num(), any_num(), any_num(), any_num()];
-    let p = any_perm();
     let with_depth = sym::bool();
     let (ti, _ii) = if white { (0, 2) } else { (1, 3) };
     let clock: [&str; 8] = [NAMES[p[0]], n[p[0]].s(), NAMES[p[1]], n[p[1]].s(), NAMES[p[2]], n[p[2]].s(), NAMES[p[3]], n[p[3]].s()];
     // the deadline falls before the first poll: the search is cut at once, only the limit handed over matters here
-    unsafe { LAST_LIMIT_MS = None; STOP_AT = 0; }
+    unsafe { CLK.last_limit_ms = None; CLK.stop_at = 0; }
     if with_depth {
         let parts: [&str; 11] = ["go", "depth", "1", clock[0], clock[1], clock[2], clock[3], clock[4], clock[5], clock[6], clock[7]];
         crate::uci::vh::go(&mut f, &parts);
@@ -100,13 +97,23 @@ pub fn c12_go_limit() {
         let parts: [&str; 9] = ["go", clock[0], clock[1], clock[2], clock[3], clock[4], clock[5], clock[6], clock[7]];
         crate::uci::vh::go(&mut f, &parts);
     }
-    let lim = unsafe { LAST_LIMIT_MS };
+    let lim = unsafe { CLK.last_limit_ms };
     vnote!("go", "{:?} white={} with_depth={} limit={:?}", clock, white, with_depth, lim);
     vassert!(lim.is_some(), "C12: go with clock tokens started an untimed search");
     if let Some(ms) = lim { check_budget(ms, n[ti].val); }
     vcover!(with_depth && lim.is_some(), "depth before clocks");
     core::mem::forget(f);
 }
+macro_rules! go_limit_harness { ($name:ident, $p:expr) => {
+    #[cfg_attr(kani, kani::proof)]
+    #[cfg_attr(kani, kani::unwind(10))]
+    #[cfg_attr(kani, kani::stub(core::time::Duration::from_millis, crate::hcommon::stub_from_millis))]
+    #[cfg_attr(kani, kani::stub(crate::history::HistoryTable::age, crate::hcommon::stub_age))]
+    #[cfg_attr(kani, kani::stub(crate::moves::Move::to_algebraic, crate::hcommon::stub_to_algebraic))]
+    pub fn $name() { go_limit_case($p); }
+}; }
+go_limit_harness!(c12_go_limit_0123, [0, 1, 2, 3]);
+go_limit_harness!(c12_go_limit_3210, [3, 2, 1, 0]);
 
 /// Spellings with 1..=8 digits (no zero padding): same bounds for the canonical token order.
 #[cfg_attr(kani, kani::proof)]
